@@ -1,6 +1,7 @@
 (* C18 — a query observes the table as of a single instant. *)
 From Coq Require Import Lia.
 From Zeno Require Import Base Alias AliasP.
+From Zeno Require Pin PinP PinSrc Facts TiePin.
 
 (* whatever the live store does after a scan took its (deep-copied) memstore snapshot — inserts into
    existing periods (in-place writes), into new keys, flushes — every buffer the snapshot points to
@@ -12,6 +13,25 @@ Theorem C18_snapshot_stable : forall (K:Type) (keqb:K -> K -> bool) (S:Type) (se
   hget S sempty i (snd (fold_left (astep K keqb S sempty) ops (t, h1))) = hget S sempty i h1.
 Proof. exact deep_snapshot_stable. Qed.
 
+(* the instant: the scan begun after the operations [pre] holds a snapshot of exactly the points inserted in [pre],
+   and - with rowStore.iterate structured as row_store.go has it - whatever [post] does (inserts, flushes, removals
+   of old files, other scans), if it finishes it returned exactly those points: none applied later, all applied before *)
+Theorem C18_scan_reflects_the_prefix_at_its_start : forall pre post,
+  let atomic := PinSrc.pins_atomically Facts.gen_iterate_steps in
+  exists sc, nth_error (Pin.p_scans (Pin.prun atomic (pre ++ Pin.PBegin :: post))) (PinP.count_begin pre) = Some sc /\
+             Pin.ps_n sc = PinP.count_ins pre /\
+             forall from upto, Pin.ps_phase sc = Pin.Finished from upto -> from = 0%nat /\ upto = PinP.count_ins pre.
+Proof.
+  intros pre post atomic. destruct (PinP.snapshot_is_history_prefix atomic pre post) as [sc [E Hn]].
+  exists sc. split; [exact E|]. split; [exact Hn|]. intros from upto Hp. rewrite <- Hn.
+  unfold atomic in E. rewrite TiePin.iterate_pins_atomically in E.
+  exact (PinP.atomic_scans_return_their_snapshot _ sc from upto (nth_error_In _ _ E) Hp).
+Qed.
+
+(* the memstore copy is taken in the critical section that captures the file store (same instant for both halves) *)
+Theorem C18_memstore_copied_with_file_store : PinSrc.copies_with_capture Facts.gen_iterate_steps = true.
+Proof. exact TiePin.iterate_copies_with_capture. Qed.
+
 Example C18_nonvacuous :
   let t := [(1, 0%nat); (2, 1%nat)] in let h := [10; 20] in
   let '(ts, h1) := copy_deep Z Z 0 (t, h) in
@@ -22,3 +42,5 @@ Example C18_nonvacuous :
 Proof. split; [intros k i [H|[H|[]]]; inversion H; cbn; lia|]. vm_compute. auto. Qed.
 
 Print Assumptions C18_snapshot_stable.
+Print Assumptions C18_scan_reflects_the_prefix_at_its_start.
+Print Assumptions C18_memstore_copied_with_file_store.
